@@ -712,8 +712,29 @@ class BlePairing(AbstractPairing):
             # We had a successful decrypt, so we can update the state_num
             self.description.state_num = gsn
             char = self.accessories.aid(BLE_AID).characteristics.iid(iid)
+            if char is None:
+                logger.debug(
+                    "%s: Notification for unknown iid %s, falling back processing as disconnected event",
+                    self.name,
+                    iid,
+                )
+                self._process_disconnected_events()
+                return
 
-            results = {(BLE_AID, iid): {"value": from_bytes(char, value)}}
+            try:
+                decoded_value = from_bytes(char, value)
+            except (ValueError, struct.error):
+                logger.debug(
+                    "%s: Notification value %s for iid %s can not be decoded, "
+                    "falling back processing as disconnected event",
+                    self.name,
+                    value,
+                    iid,
+                )
+                self._process_disconnected_events()
+                return
+
+            results = {(BLE_AID, iid): {"value": decoded_value}}
             logger.debug("%s: Received notification: results = %s", self.name, results)
 
             self._callback_listeners(results)
